@@ -1,8 +1,8 @@
 (* A std package is always imported under the name the reserved table gives it, whatever else the
    history imports and in whatever order:  both the table (std.go, a tracker without checkStd) and
    a writer's tracker walk the SAME candidate sequence of a path; everything before the table's
-   choice is reserved for another std package, and the table's choice itself can only ever be taken
-   by that path. *)
+   choice is reserved for another std package or refused outright by both (a predeclared
+   identifier), and the table's choice itself can only ever be taken by that path. *)
 Require Import Gengo.Base.Bytes Gengo.Model.CamelCase Gengo.Model.GoIdent Gengo.Model.Tracker
                Gengo.Model.TrackerSpec Gengo.Proofs.CamelCase Gengo.Proofs.Tracker.
 From Coq Require Import PeanoNat.
@@ -24,21 +24,21 @@ Proof.
 Qed.
 
 (* try_cands on the segment counts a+1 .. a+k *)
-Lemma try_cands_first : forall fixed std tr path segs k a last r l,
-  try_cands fixed std tr path segs (seq (S a) k) last = Ok (r, l) ->
+Lemma try_cands_first : forall fixed pre std tr path segs k a last r l,
+  try_cands fixed pre std tr path segs (seq (S a) k) last = Ok (r, l) ->
   match r with
   | Some tr' =>
-      exists j, j < k /\ l = name_of fixed segs (S (a + j)) /\ Tracker.bind std tr l path = Some tr' /\
-                forall i, i < j -> Tracker.bind std tr (name_of fixed segs (S (a + i))) path = None
+      exists j, j < k /\ l = name_of fixed segs (S (a + j)) /\ Tracker.bind pre std tr l path = Some tr' /\
+                forall i, i < j -> Tracker.bind pre std tr (name_of fixed segs (S (a + i))) path = None
   | None =>
-      (forall i, i < k -> Tracker.bind std tr (name_of fixed segs (S (a + i))) path = None) /\
+      (forall i, i < k -> Tracker.bind pre std tr (name_of fixed segs (S (a + i))) path = None) /\
       l = match k with O => last | S k' => name_of fixed segs (S (a + k')) end
   end.
 Proof.
-  intros fixed std tr path segs. induction k as [|k IH]; intros a last r l H; cbn [seq try_cands] in H.
+  intros fixed pre std tr path segs. induction k as [|k IH]; intros a last r l H; cbn [seq try_cands] in H.
   - inversion H; subst. split; [intros i Hi; lia|reflexivity].
   - rewrite local_name_name_of in H. cbn [Bytes.bind] in H.
-    destruct (Tracker.bind std tr (name_of fixed segs (S a)) path) as [tr1|] eqn:B.
+    destruct (Tracker.bind pre std tr (name_of fixed segs (S a)) path) as [tr1|] eqn:B.
     + inversion H; subst. exists 0. rewrite Nat.add_0_r. repeat split; [lia|exact B|intros i Hi; lia].
     + apply IH in H. destruct r as [tr'|].
       * destruct H as (j & Hj & Hl & Hb & Hpre). exists (S j).
@@ -52,29 +52,29 @@ Proof.
            replace (a + S k') with (S a + k') by lia. reflexivity.
 Qed.
 
-Lemma number_loop_first : forall fuel k std tr base path tr',
-  number_loop fuel k std tr base path = Ok tr' ->
-  exists j, k <= j /\ Tracker.bind std tr (base ++ itoa j) path = Some tr' /\
-            forall i, k <= i < j -> Tracker.bind std tr (base ++ itoa i) path = None.
+Lemma number_loop_first : forall fuel k pre std tr base path tr',
+  number_loop fuel k pre std tr base path = Ok tr' ->
+  exists j, k <= j /\ Tracker.bind pre std tr (base ++ itoa j) path = Some tr' /\
+            forall i, k <= i < j -> Tracker.bind pre std tr (base ++ itoa i) path = None.
 Proof.
-  induction fuel as [|f IH]; intros k std tr base path tr' H; cbn [number_loop] in H; [discriminate|].
-  destruct (Tracker.bind std tr (base ++ itoa k) path) as [tr1|] eqn:B.
+  induction fuel as [|f IH]; intros k pre std tr base path tr' H; cbn [number_loop] in H; [discriminate|].
+  destruct (Tracker.bind pre std tr (base ++ itoa k) path) as [tr1|] eqn:B.
   - inversion H; subst. exists k. repeat split; [lia|exact B|intros i Hi; lia].
   - apply IH in H. destruct H as (j & Hj & Hb & Hpre). exists j. repeat split; [lia|exact Hb|].
     intros i Hi. destruct (PeanoNat.Nat.eq_dec i k) as [->|Hne]; [exact B|]. apply Hpre. lia.
 Qed.
 
 (* add binds the FIRST candidate of the sequence that can be bound *)
-Lemma add_first : forall fixed std tr path tr',
-  lookup path (p2n tr) = None -> add fixed std tr path = Ok tr' ->
-  (exists j, Tracker.bind std tr (cand_at fixed path j) path = Some tr' /\
-             forall i, i < j -> Tracker.bind std tr (cand_at fixed path i) path = None)
+Lemma add_first : forall fixed pre std tr path tr',
+  lookup path (p2n tr) = None -> add fixed pre std tr path = Ok tr' ->
+  (exists j, Tracker.bind pre std tr (cand_at fixed path j) path = Some tr' /\
+             forall i, i < j -> Tracker.bind pre std tr (cand_at fixed path i) path = None)
   \/ tr' = tr.
 Proof.
-  intros fixed std tr path tr' L H. unfold add in H. rewrite L in H.
+  intros fixed pre std tr path tr' L H. unfold add in H. rewrite L in H.
   set (segs := split_slash [] path) in *. set (m := length segs) in *.
-  destruct (try_cands fixed std tr path segs (seq 1 m) []) as [[r l]| |] eqn:T; cbn [Bytes.bind] in H; try discriminate.
-  apply (try_cands_first fixed std tr path segs m 0) in T. cbn [Nat.add] in T.
+  destruct (try_cands fixed pre std tr path segs (seq 1 m) []) as [[r l]| |] eqn:T; cbn [Bytes.bind] in H; try discriminate.
+  apply (try_cands_first fixed pre std tr path segs m 0) in T. cbn [Nat.add] in T.
   assert (C1 : forall i, i < m -> cand_at fixed path i = name_of fixed segs (S i)).
   { intros i Hi. unfold cand_at. fold segs. fold m. apply Nat.ltb_lt in Hi. rewrite Hi. reflexivity. }
   destruct r as [tr1|].
@@ -101,111 +101,119 @@ Qed.
 
 (* every name the table gives is the first candidate of its path that was not already given to
    another path *)
-Definition first_choice (fixed : bool) (s : tracker) : Prop :=
+Definition first_choice (fixed : bool) (pre : list bytes) (s : tracker) : Prop :=
   forall p sn, lookup p (p2n s) = Some sn ->
+    name_in pre sn = false /\
     exists j, sn = cand_at fixed p j /\
-              forall i, i < j -> exists q, q <> p /\ lookup (cand_at fixed p i) (n2p s) = Some q.
+              forall i, i < j -> name_in pre (cand_at fixed p i) = true \/
+                                 exists q, q <> p /\ lookup (cand_at fixed p i) (n2p s) = Some q.
 
-Lemma first_choice_empty : forall fixed, first_choice fixed empty_tracker.
-Proof. intros fixed p sn H. cbn in H. discriminate. Qed.
+Lemma first_choice_empty : forall fixed pre, first_choice fixed pre empty_tracker.
+Proof. intros fixed pre p sn H. cbn in H. discriminate. Qed.
 
-Lemma bind_nostd_none : forall tr nm path, Tracker.bind None tr nm path = None -> exists q, lookup nm (n2p tr) = Some q.
+Lemma bind_nostd_none : forall pre tr nm path, Tracker.bind pre None tr nm path = None ->
+  name_in pre nm = true \/ exists q, lookup nm (n2p tr) = Some q.
 Proof.
-  intros tr nm path H. unfold Tracker.bind in H. cbn in H. destruct (lookup nm (n2p tr)); [eauto|discriminate].
+  intros pre tr nm path H. unfold Tracker.bind in H. destruct (name_in pre nm); [left; reflexivity|right].
+  cbn in H. destruct (lookup nm (n2p tr)); [eauto|discriminate].
 Qed.
 
-Lemma add_first_choice : forall fixed s0 path s1,
-  inv None s0 -> first_choice fixed s0 -> add fixed None s0 path = Ok s1 -> first_choice fixed s1.
+Lemma add_first_choice : forall fixed pre s0 path s1,
+  inv None s0 -> first_choice fixed pre s0 -> add fixed pre None s0 path = Ok s1 -> first_choice fixed pre s1.
 Proof.
-  intros fixed s0 path s1 I F H.
+  intros fixed pre s0 path s1 I F H.
   destruct (lookup path (p2n s0)) as [n|] eqn:L.
   - unfold add in H. rewrite L in H. inversion H; subst. exact F.
-  - destruct (add_first _ _ _ _ _ L H) as [(j & Hb & Hpre)| ->]; [|exact F].
-    pose proof (bind_ext_n2p _ _ _ _ _ Hb) as X.
+  - destruct (add_first _ _ _ _ _ _ L H) as [(j & Hb & Hpre)| ->]; [|exact F].
+    pose proof (bind_ext_n2p _ _ _ _ _ _ Hb) as X.
     intros p sn Hp. destruct (bytes_dec p path) as [->|Hne].
-    + rewrite (bind_bound _ _ _ _ _ Hb) in Hp. inversion Hp; subst sn. exists j. split; [reflexivity|].
-      intros i Hi. destruct (bind_nostd_none _ _ _ (Hpre i Hi)) as [q Hq]. exists q. split; [|apply X; exact Hq].
+    + rewrite (bind_bound _ _ _ _ _ _ Hb) in Hp. inversion Hp; subst sn.
+      split; [eapply bind_some_not_pre; exact Hb|]. exists j. split; [reflexivity|].
+      intros i Hi. destruct (bind_nostd_none _ _ _ _ (Hpre i Hi)) as [Hp'|[q Hq]]; [left; exact Hp'|right].
+      exists q. split; [|apply X; exact Hq].
       intros ->. apply (inv_bij _ _ I) in Hq. congruence.
-    + destruct (bind_some _ _ _ _ _ Hb) as (_ & _ & E). rewrite E in Hp. cbn [p2n] in Hp.
-      rewrite lookup_tl in Hp by exact Hne. destruct (F p sn Hp) as (j' & Hs & Hq). exists j'. split; [exact Hs|].
-      intros i Hi. destruct (Hq i Hi) as (q & Hqp & Hl). exists q. split; [exact Hqp|apply X; exact Hl].
+    + destruct (bind_some _ _ _ _ _ _ Hb) as (_ & _ & E). rewrite E in Hp. cbn [p2n] in Hp.
+      rewrite lookup_tl in Hp by exact Hne. destruct (F p sn Hp) as (NP & j' & Hs & Hq).
+      split; [exact NP|]. exists j'. split; [exact Hs|].
+      intros i Hi. destruct (Hq i Hi) as [Hp'|(q & Hqp & Hl)]; [left; exact Hp'|right].
+      exists q. split; [exact Hqp|apply X; exact Hl].
 Qed.
 
 (* ------------------------------------------------------------------ lifting over add_all and runs *)
 
-Lemma add_all_app : forall fixed std a b tr,
-  add_all fixed std tr (a ++ b) = (let! t := add_all fixed std tr a in add_all fixed std t b).
+Lemma add_all_app : forall fixed pre std a b tr,
+  add_all fixed pre std tr (a ++ b) = (let! t := add_all fixed pre std tr a in add_all fixed pre std t b).
 Proof.
-  intros fixed std. induction a as [|p a IH]; intros b tr; cbn [app add_all]; [reflexivity|].
-  destruct (add fixed std tr p) as [t| |]; cbn [Bytes.bind]; [apply IH|reflexivity|reflexivity].
+  intros fixed pre std. induction a as [|p a IH]; intros b tr; cbn [app add_all]; [reflexivity|].
+  destruct (add fixed pre std tr p) as [t| |]; cbn [Bytes.bind]; [apply IH|reflexivity|reflexivity].
 Qed.
 
-Lemma add_all_preserves : forall fixed std (P : tracker -> Prop),
-  (forall tr path tr', inv std tr -> P tr -> add fixed std tr path = Ok tr' -> P tr') ->
-  forall ps tr tr', inv std tr -> P tr -> add_all fixed std tr ps = Ok tr' -> inv std tr' /\ P tr'.
+Lemma add_all_preserves : forall fixed pre std (P : tracker -> Prop),
+  (forall tr path tr', inv std tr -> P tr -> add fixed pre std tr path = Ok tr' -> P tr') ->
+  forall ps tr tr', inv std tr -> P tr -> add_all fixed pre std tr ps = Ok tr' -> inv std tr' /\ P tr'.
 Proof.
-  intros fixed std P HP. induction ps as [|p ps IH]; intros tr tr' I Ptr H; cbn [add_all] in H.
+  intros fixed pre std P HP. induction ps as [|p ps IH]; intros tr tr' I Ptr H; cbn [add_all] in H.
   - inversion H; subst. auto.
-  - destruct (add fixed std tr p) as [t| |] eqn:A; cbn [Bytes.bind] in H; try discriminate.
+  - destruct (add fixed pre std tr p) as [t| |] eqn:A; cbn [Bytes.bind] in H; try discriminate.
     apply (IH t tr'); [eapply reach_inv; [eapply add_reach; eauto|exact I]|eapply HP; eauto|exact H].
 Qed.
 
 (* the tracker a history ends in is the tracker obtained by adding the referenced paths in order *)
-Lemma walk_args_tracker : forall fixed std self args tr tr' txt,
-  walk_args fixed std self tr args = Ok (tr', txt) ->
-  add_all fixed std tr (filter (foreign self) (map fst args)) = Ok tr'.
+Lemma walk_args_tracker : forall fixed pre std self args tr tr' txt,
+  walk_args fixed pre std self tr args = Ok (tr', txt) ->
+  add_all fixed pre std tr (filter (foreign self) (map fst args)) = Ok tr'.
 Proof.
-  intros fixed std self. induction args as [|[p lit] rest IH]; intros tr tr' txt H; cbn [walk_args] in H.
+  intros fixed pre std self. induction args as [|[p lit] rest IH]; intros tr tr' txt H; cbn [walk_args] in H.
   - inversion H; subst. reflexivity.
   - cbn [map fst filter]. unfold foreign at 1.
     destruct (is_nil p); [|destruct (bytes_eqb p self)]; cbn [negb andb].
-    + destruct (walk_args fixed std self tr rest) as [[t1 x]| |] eqn:W; cbn in H; try discriminate.
+    + destruct (walk_args fixed pre std self tr rest) as [[t1 x]| |] eqn:W; cbn in H; try discriminate.
       inversion H; subst. eapply IH; eauto.
-    + destruct (walk_args fixed std self tr rest) as [[t1 x]| |] eqn:W; cbn in H; try discriminate.
+    + destruct (walk_args fixed pre std self tr rest) as [[t1 x]| |] eqn:W; cbn in H; try discriminate.
       inversion H; subst. eapply IH; eauto.
-    + cbn [add_all]. destruct (add fixed std tr p) as [t| |]; cbn [Bytes.bind] in *; try discriminate.
-      destruct (walk_args fixed std self t rest) as [[t1 x]| |] eqn:W; cbn in H; try discriminate.
+    + cbn [add_all]. destruct (add fixed pre std tr p) as [t| |]; cbn [Bytes.bind] in *; try discriminate.
+      destruct (walk_args fixed pre std self t rest) as [[t1 x]| |] eqn:W; cbn in H; try discriminate.
       inversion H; subst. eapply IH; eauto.
 Qed.
 
-Lemma name_ref_tracker : forall fixed std self tr r tr' txt,
-  name_ref fixed std self tr r = Ok (tr', txt) -> add_all fixed std tr (ref_paths self r) = Ok tr'.
+Lemma name_ref_tracker : forall fixed pre std self tr r tr' txt,
+  name_ref fixed pre std self tr r = Ok (tr', txt) -> add_all fixed pre std tr (ref_paths self r) = Ok tr'.
 Proof.
-  intros fixed std self tr r tr' txt H. unfold name_ref in H. unfold ref_paths. rewrite add_all_app.
-  destruct (walk_args fixed std self tr (r_args r)) as [[t1 a]| |] eqn:W; cbn [Bytes.bind] in H; try discriminate.
-  rewrite (walk_args_tracker _ _ _ _ _ _ _ W). cbn [Bytes.bind].
+  intros fixed pre std self tr r tr' txt H. unfold name_ref in H. unfold ref_paths. rewrite add_all_app.
+  destruct (walk_args fixed pre std self tr (r_args r)) as [[t1 a]| |] eqn:W; cbn [Bytes.bind] in H; try discriminate.
+  rewrite (walk_args_tracker _ _ _ _ _ _ _ _ W). cbn [Bytes.bind].
   destruct (bytes_eqb (r_path r) self).
   - inversion H; subst. reflexivity.
-  - cbn [add_all]. destruct (add fixed std t1 (r_path r)) as [t2| |]; cbn [Bytes.bind] in *; try discriminate.
+  - cbn [add_all]. destruct (add fixed pre std t1 (r_path r)) as [t2| |]; cbn [Bytes.bind] in *; try discriminate.
     inversion H; subst. reflexivity.
 Qed.
 
-Lemma render_items_tracker : forall fixed std self its tr tr' txt,
-  render_items fixed std self tr its = Ok (tr', txt) ->
-  add_all fixed std tr (flat_map (item_paths self) its) = Ok tr'.
+Lemma render_items_tracker : forall fixed pre std self its tr tr' txt,
+  render_items fixed pre std self tr its = Ok (tr', txt) ->
+  add_all fixed pre std tr (flat_map (item_paths self) its) = Ok tr'.
 Proof.
-  intros fixed std self. induction its as [|[b|r] rest IH]; intros tr tr' txt H; cbn [render_items] in H.
+  intros fixed pre std self. induction its as [|[b|r] rest IH]; intros tr tr' txt H; cbn [render_items] in H.
   - inversion H; subst. reflexivity.
-  - destruct (render_items fixed std self tr rest) as [[t1 x]| |] eqn:W; cbn in H; try discriminate.
+  - destruct (render_items fixed pre std self tr rest) as [[t1 x]| |] eqn:W; cbn in H; try discriminate.
     inversion H; subst. cbn [flat_map item_paths app]. eapply IH; eauto.
-  - destruct (name_ref fixed std self tr r) as [[t1 x]| |] eqn:N; cbn [Bytes.bind] in H; try discriminate.
-    destruct (render_items fixed std self t1 rest) as [[t2 y]| |] eqn:W; cbn in H; try discriminate.
+  - destruct (name_ref fixed pre std self tr r) as [[t1 x]| |] eqn:N; cbn [Bytes.bind] in H; try discriminate.
+    destruct (render_items fixed pre std self t1 rest) as [[t2 y]| |] eqn:W; cbn in H; try discriminate.
     inversion H; subst. cbn [flat_map item_paths]. rewrite add_all_app.
-    rewrite (name_ref_tracker _ _ _ _ _ _ _ N). cbn [Bytes.bind]. eapply IH; eauto.
+    rewrite (name_ref_tracker _ _ _ _ _ _ _ _ N). cbn [Bytes.bind]. eapply IH; eauto.
 Qed.
 
-Lemma run_from_tracker : forall fixed std self ops tr tr' texts snaps,
-  run_from fixed std self tr ops = Ok (tr', texts, snaps) ->
-  add_all fixed std tr (history_paths self ops) = Ok tr'.
+Lemma run_from_tracker : forall fixed pre std self ops tr tr' texts snaps,
+  run_from fixed pre std self tr ops = Ok (tr', texts, snaps) ->
+  add_all fixed pre std tr (history_paths self ops) = Ok tr'.
 Proof.
-  intros fixed std self. induction ops as [|o rest IH]; intros tr tr' texts snaps H; cbn [run_from] in H.
+  intros fixed pre std self. induction ops as [|o rest IH]; intros tr tr' texts snaps H; cbn [run_from] in H.
   - inversion H; subst. reflexivity.
-  - destruct (step fixed std self tr o) as [[t1 x]| |] eqn:S; cbn [Bytes.bind] in H; try discriminate.
-    destruct (run_from fixed std self t1 rest) as [[[t2 ts] sn]| |] eqn:W; cbn in H; try discriminate.
+  - destruct (step fixed pre std self tr o) as [[t1 x]| |] eqn:S; cbn [Bytes.bind] in H; try discriminate.
+    destruct (run_from fixed pre std self t1 rest) as [[[t2 ts] sn]| |] eqn:W; cbn in H; try discriminate.
     inversion H; subst. unfold history_paths. cbn [flat_map]. rewrite add_all_app.
-    assert (E : add_all fixed std tr (op_paths self o) = Ok t1).
+    assert (E : add_all fixed pre std tr (op_paths self o) = Ok t1).
     { destruct o as [p|its]; cbn [step op_paths] in *.
-      - cbn [add_all]. destruct (add fixed std tr p) as [t| |]; cbn in *; try discriminate. inversion S; subst. reflexivity.
+      - cbn [add_all]. destruct (add fixed pre std tr p) as [t| |]; cbn in *; try discriminate. inversion S; subst. reflexivity.
       - eapply render_items_tracker; eauto. }
     rewrite E. cbn [Bytes.bind]. eapply IH; eauto.
 Qed.
@@ -215,42 +223,44 @@ Qed.
 Definition std_named (s tr : tracker) : Prop :=
   forall p n sn, lookup p (p2n tr) = Some n -> lookup p (p2n s) = Some sn -> n = sn.
 
-Lemma add_std_named : forall fixed s tr path tr',
-  bij s -> first_choice fixed s ->
-  inv (Some s) tr -> std_named s tr -> add fixed (Some s) tr path = Ok tr' -> std_named s tr'.
+Lemma add_std_named : forall fixed pre s tr path tr',
+  bij s -> first_choice fixed pre s ->
+  inv (Some s) tr -> std_named s tr -> add fixed pre (Some s) tr path = Ok tr' -> std_named s tr'.
 Proof.
-  intros fixed s tr path tr' Bs F I SN H.
+  intros fixed pre s tr path tr' Bs F I SN H.
   destruct (lookup path (p2n tr)) as [n0|] eqn:L.
   - unfold add in H. rewrite L in H. inversion H; subst. exact SN.
-  - destruct (add_first _ _ _ _ _ L H) as [(ju & Hb & Hpre)| ->]; [|exact SN].
+  - destruct (add_first _ _ _ _ _ _ L H) as [(ju & Hb & Hpre)| ->]; [|exact SN].
     intros p n sn Hp Hs. destruct (bytes_dec p path) as [->|Hne].
-    + rewrite (bind_bound _ _ _ _ _ Hb) in Hp. inversion Hp; subst n. clear Hp.
-      destruct (F path sn Hs) as (js & -> & Hq).
+    + rewrite (bind_bound _ _ _ _ _ _ Hb) in Hp. inversion Hp; subst n. clear Hp.
+      destruct (F path sn Hs) as (NP & js & -> & Hq).
       destruct (Nat.lt_trichotomy ju js) as [Hlt|[->|Hgt]]; [exfalso|reflexivity|exfalso].
-      * (* a name before the table's choice is reserved for another std package *)
-        destruct (Hq ju Hlt) as (q & Hqp & Hl). destruct (bind_some _ _ _ _ _ Hb) as (Hc & _ & _).
+      * (* a name before the table's choice is refused outright or reserved for another std package *)
+        destruct (Hq ju Hlt) as [Hp'|(q & Hqp & Hl)].
+        { rewrite (bind_some_not_pre _ _ _ _ _ _ Hb) in Hp'. discriminate. }
+        destruct (bind_some _ _ _ _ _ _ Hb) as (Hc & _ & _).
         unfold std_conflict in Hc. rewrite Hl in Hc. apply negb_false_iff in Hc. apply bytes_eqb_spec in Hc. congruence.
       * (* the table's choice cannot have been refused: only [path] itself may hold it *)
-        specialize (Hpre js Hgt). apply Bs in Hs. unfold Tracker.bind in Hpre. unfold std_conflict in Hpre.
+        specialize (Hpre js Hgt). apply Bs in Hs. unfold Tracker.bind in Hpre. rewrite NP in Hpre. unfold std_conflict in Hpre.
         rewrite Hs, bytes_eqb_refl in Hpre. cbn [negb] in Hpre.
         destruct (lookup (cand_at fixed path js) (n2p tr)) as [q|] eqn:Lq; [|discriminate].
         pose proof (inv_std _ _ I s _ _ _ eq_refl Lq Hs) as ->. apply (inv_bij _ _ I) in Lq. congruence.
-    + destruct (bind_some _ _ _ _ _ Hb) as (_ & _ & E). rewrite E in Hp. cbn [p2n] in Hp.
+    + destruct (bind_some _ _ _ _ _ _ Hb) as (_ & _ & E). rewrite E in Hp. cbn [p2n] in Hp.
       rewrite lookup_tl in Hp by exact Hne. eapply SN; eauto.
 Qed.
 
-Theorem std_packages_keep_their_names : forall fixed lines s self ops tr texts snaps,
-  build_std fixed lines = Ok s ->
-  run fixed (Some s) self ops = Ok (tr, texts, snaps) ->
+Theorem std_packages_keep_their_names : forall fixed pre lines s self ops tr texts snaps,
+  build_std fixed pre lines = Ok s ->
+  run fixed pre (Some s) self ops = Ok (tr, texts, snaps) ->
   forall p n sn, lookup p (p2n tr) = Some n -> lookup p (p2n s) = Some sn -> n = sn.
 Proof.
-  intros fixed lines s self ops tr texts snaps Hs H.
+  intros fixed pre lines s self ops tr texts snaps Hs H.
   unfold build_std in Hs.
-  destruct (add_all_preserves fixed None (first_choice fixed) (fun tr path tr' I P A => add_first_choice fixed tr path tr' I P A)
-              _ _ _ (inv_empty None) (first_choice_empty fixed) Hs) as [Is Fs].
+  destruct (add_all_preserves fixed pre None (first_choice fixed pre) (fun tr path tr' I P A => add_first_choice fixed pre tr path tr' I P A)
+              _ _ _ (inv_empty None) (first_choice_empty fixed pre) Hs) as [Is Fs].
   apply run_from_tracker in H.
-  destruct (add_all_preserves fixed (Some s) (std_named s)
-              (fun tr path tr' I P A => add_std_named fixed s tr path tr' (inv_bij _ _ Is) Fs I P A)
+  destruct (add_all_preserves fixed pre (Some s) (std_named s)
+              (fun tr path tr' I P A => add_std_named fixed pre s tr path tr' (inv_bij _ _ Is) Fs I P A)
               _ _ _ (inv_empty (Some s)) (fun p n sn Hp => ltac:(cbn in Hp; discriminate)) H) as [_ SN].
   exact SN.
 Qed.
